@@ -2937,7 +2937,9 @@ def _np_allclose(ex, st, node, a, b, rtol=Fraction(1, 100000), atol=Fraction(1, 
 
 def _it_product(ex, st, node, *iters):
     import itertools as _itl
-    if iters and all(isinstance(it, VRange) and it.step == 1 for it in iters) and any(is_z3(it.lo) or is_z3(it.hi) for it in iters):
+    def _sym_len(it):
+        return not z3.is_int_value(z3.simplify(to_z3(it.hi) - to_z3(it.lo)))
+    if iters and all(isinstance(it, VRange) and it.step == 1 for it in iters) and any(_sym_len(it) for it in iters):
         # product of symbolic integer ranges: the box {t : lo_k <= t_k < hi_k} as a set of integer tuples (an iterator in python;
         # as a value it is only usable where order and multiplicity do not matter: set(...), set.update(...))
         from .values import int_tuple_sort, tuple_components
